@@ -84,11 +84,10 @@ class TSIG(dns.rdata.Rdata):
     def to_styled_text(self, style: dns.rdata.RdataStyle) -> str:
         algorithm = self.algorithm.to_styled_text(style)
         error = dns.rcode.to_text(self.error, True)
-        text = (
-            f"{algorithm} {self.time_signed} {self.fudge} "
-            + f"{len(self.mac)} {dns.rdata._base64ify(self.mac, 0)} "
-            + f"{self.original_id} {error} {len(self.other)}"
-        )
+        text = f"{algorithm} {self.time_signed} {self.fudge} {len(self.mac)} "
+        if self.mac:
+            text += f"{dns.rdata._base64ify(self.mac, 0)} "
+        text += f"{self.original_id} {error} {len(self.other)}"
         if self.other:
             text += f" {dns.rdata._base64ify(self.other, 0)}"
         return text
@@ -101,9 +100,12 @@ class TSIG(dns.rdata.Rdata):
         time_signed = tok.get_uint48()
         fudge = tok.get_uint16()
         mac_len = tok.get_uint16()
-        mac = base64.b64decode(tok.get_string())
-        if len(mac) != mac_len:
-            raise SyntaxError("invalid MAC")
+        if mac_len > 0:
+            mac = base64.b64decode(tok.get_string())
+            if len(mac) != mac_len:
+                raise SyntaxError("invalid MAC")
+        else:
+            mac = b""
         original_id = tok.get_uint16()
         error = dns.rcode.from_text(tok.get_string())
         other_len = tok.get_uint16()
